@@ -330,6 +330,11 @@ def c09(run):
     for fam, st in zip(dfams, dsts):
         path, n = run.records(st)
         run.replay("data", path, name="data-" + fam)
+    # "errors raised during evaluation carry the line of the construct": the line families of C13 (faults behind multi-line
+    # preambles; the expected line is known by construction), judged for C09
+    lst = run.tlc("MC_Text", text_cfg("c13one"), name="MC_Text_c13one", timeout=3000, workers=1)
+    path, n = run.records(lst)
+    run.replay("render", path, name="render-c13one")
     return vp.finish(run, "model_checking",
                      "the kind-confusion matrix: every binary operator x 16 value kinds on both sides (incl. the int64 "
                      "bounds, empty and non-empty strings/arrays/objects, nil), every prefix/postfix operator, index and "
@@ -339,7 +344,8 @@ def c09(run):
                      "kind (chan, func, complex, fixed-size array, non-string-keyed map, uintptr) at every depth; "
                      "the model (total: value, demanded error, or "
                      "unspecified) predicts each and the harness requires: no panic, no hang, the predicted value or "
-                     "error where fixed, and a line >= 1 on every evaluation error", exhaustive=True)
+                     "error where fixed, and a line >= 1 on every evaluation error; the single-line faults of C13 behind "
+                     "every preamble must name their own line", exhaustive=True)
 
 
 # ------------------------------------------------------------------ machine E (evaluator): C02 C03 C04
